@@ -368,14 +368,19 @@ fn client_case(r: &mut Report, rng: &mut Rng, servers: &[ScriptedServer], hosts:
         s.clear();
         s.take_log();
     }
+    // one exchange in six is with origins that keep the connection open after a complete (self-delimiting) response,
+    // as keep-alive servers do: the client must not wait for the close
+    let linger_ms: u64 = if rng.chance(1, 6) { 2000 } else { 0 };
     // queue the scripted responses per server in hop order
     for h in &hops {
         let bytes = h.model.render(h.at);
         let seg = if rng.chance(1, 2) { vec![] } else { vec![rng.urange(1, 40), rng.urange(1, 200), rng.urange(1, 2000)] };
-        servers[h.host].push(Play::Respond { bytes, seg, gap_us: if rng.chance(1, 3) { 300 } else { 0 }, linger_ms: 0 });
+        servers[h.host].push(Play::Respond { bytes, seg, gap_us: if rng.chance(1, 3) { 300 } else { 0 }, linger_ms });
     }
-    let follow = nredir > 0 || rng.chance(1, 2);
+    // with a redirect chain, one time in four following stays off: the client must hand back the first (3xx) response
+    let follow = if nredir > 0 { !rng.chance(1, 4) } else { rng.chance(1, 2) };
     let extra_header = rng.chance(1, 2);
+    let t_call = std::time::Instant::now();
     let res = catch_unwind(AssertUnwindSafe(|| {
         let mut c = Client::new();
         let req = match method {
@@ -390,6 +395,7 @@ fn client_case(r: &mut Report, rng: &mut Rng, servers: &[ScriptedServer], hosts:
         }
         req.with_redirects(follow).send().map_err(|e| e.to_string())
     }));
+    let elapsed_ms = t_call.elapsed().as_millis() as u64;
     let chain: Vec<String> = hops.iter().map(|h| format!("{}{} -> {}", hosts[h.host], h.target, h.model.code)).collect();
     let ex = |why: &str| J::obj(vec![("method", J::s(method)), ("url", J::s(&url)), ("chain", J::arr_s(&chain)), ("final", hops.last().unwrap().model.to_json()), ("why", J::s(why))]);
     if nredir > 0 {
@@ -432,6 +438,12 @@ fn client_case(r: &mut Report, rng: &mut Rng, servers: &[ScriptedServer], hosts:
                     r.violation(sig, format!("hop {}: {}", i, bad.join("; ")), J::obj(vec![("context", ex("request")), ("received", J::s(show(&rec.raw, 300)))]), replay.clone());
                 }
             }
+        }
+    }
+    if linger_ms > 0 {
+        r.count("exchanges_with_connection_kept_open", 1);
+        if elapsed_ms >= linger_ms {
+            r.violation("C07/client:waits-for-close", format!("every response was complete and self-delimiting, yet the client returned only after {} ms, i.e. when the origin (which keeps connections open for {} ms) closed", elapsed_ms, linger_ms), ex("blocked until the peer closed"), replay.clone());
         }
     }
     match res {
